@@ -447,6 +447,7 @@ func runC06(c *Ctx) {
 		_ = n
 	}
 
+	detectionResult(c)
 	formatAccessors(c)
 	wr, rd := registryAgreement(c)
 	writerSnifferAgreement(c, s, wr, rd)
@@ -616,14 +617,6 @@ func writerSnifferAgreement(c *Ctx, s *sniffer, wr, rd []registration) {
 	for _, r := range rd {
 		readable[r.key.Name()] = true
 	}
-	specL, spdxL := s.literals()
-	known := map[string]bool{}
-	for _, v := range specL {
-		known["cdx"+v] = true
-	}
-	for _, v := range spdxL {
-		known["spdx"+strings.TrimPrefix(v, "SPDX-")] = true
-	}
 	// what SPDX23.Serialize writes as its declaration
 	spdxDecl := ""
 	if d := c.decl(R, spdxSer); d != nil {
@@ -643,8 +636,10 @@ func writerSnifferAgreement(c *Ctx, s *sniffer, wr, rd []registration) {
 		var decl map[string]string
 		switch r.ctor {
 		case "NewCDX":
-			if len(r.args) < 1 || !known["cdx"+r.args[0].str()] {
-				continue // versions below 1.3 cannot be detected from JSON (documented)
+			// the property names the domain: CycloneDX 1.3, 1.4 and 1.5 (older versions are written
+			// and registered but are outside the detection guarantee)
+			if len(r.args) < 1 || !map[string]bool{"1.3": true, "1.4": true, "1.5": true}[r.args[0].str()] {
+				continue
 			}
 			decl = map[string]string{"bomFormat": "CycloneDX", "specVersion": r.args[0].str()}
 		case "NewSPDX23":
@@ -719,3 +714,146 @@ func singleDispatch(c *Ctx) {
 }
 
 func theProgramFor(s *sniffer) *Program { return s.p }
+
+// detectionResult: "reports a format only when … and otherwise returns an error": no return of the
+// detector pairs a nil error with a format that may be empty.
+func detectionResult(c *Ctx) {
+	const R = "detection-result"
+	c.rule(R, "every return of SniffReader (and of a helper whose results it returns directly) with a nil error returns a format that cannot be empty: a non-empty constant, or a variable on the positive side of a comparison with the empty format")
+	var check func(name string, depth int)
+	seen := map[string]bool{}
+	check = func(name string, depth int) {
+		if seen[name] || depth > 3 {
+			return
+		}
+		seen[name] = true
+		d := c.decl(R, name)
+		if d == nil {
+			return
+		}
+		n := 0
+		ast.Inspect(d.fd.Body, func(m ast.Node) bool {
+			if _, isLit := m.(*ast.FuncLit); isLit {
+				return false
+			}
+			rs, ok := m.(*ast.ReturnStmt)
+			if !ok {
+				return true
+			}
+			n++
+			construct := fmt.Sprintf("%s#return@%d", name, n)
+			pos := c.P.Pos(rs.Pos())
+			if len(rs.Results) == 1 {
+				if ce, isCall := rs.Results[0].(*ast.CallExpr); isCall {
+					if f, _ := typeutil.Callee(d.pkg.TypesInfo, ce).(*types.Func); f != nil && f.Pkg() != nil && strings.HasPrefix(f.Pkg().Path(), modPath+"/") {
+						c.ok(R, construct, pos, "delegates to "+objName(f))
+						check(objName(f), depth+1)
+						return true
+					}
+				}
+				c.undecided(R, construct, pos, "a single expression stands for both results and is not a call into the module")
+				return true
+			}
+			if len(rs.Results) != 2 {
+				return true
+			}
+			if !isNilIdent(d.pkg, rs.Results[1]) {
+				c.ok(R, construct, pos, "returns an error")
+				return true
+			}
+			e := rs.Results[0]
+			if v, isC := constOf(d.pkg, e); isC && v.isStr() {
+				c.check(v.str() != "", R, construct, pos, "non-empty constant format "+v.str(), "the empty format is returned with a nil error: undetectable input is reported as success")
+				return true
+			}
+			id, isId := e.(*ast.Ident)
+			guarded := false
+			if isId {
+				o := objOf(d.pkg, id)
+				isEmptyCmp := func(cond ast.Expr, op token.Token) bool {
+					for _, cj := range conjuncts(cond) {
+						be, ok := cj.(*ast.BinaryExpr)
+						if !ok || be.Op != op {
+							continue
+						}
+						x, y := be.X, be.Y
+						if objOf(d.pkg, y) == o {
+							x, y = y, x
+						}
+						if objOf(d.pkg, x) != o {
+							continue
+						}
+						if v, isC := constOf(d.pkg, y); isC && v.isStr() && v.str() == "" {
+							return true
+						}
+					}
+					return false
+				}
+				chain := enclosing(d.fd.Body, rs)
+				for i, y := range chain {
+					switch s := y.(type) {
+					case *ast.RangeStmt:
+						// the element of an init-only package list of non-empty format constants
+						if s.Value != nil && objOf(d.pkg, s.Value) == o {
+							if tid, isT := s.X.(*ast.Ident); isT {
+								if pv, isVar := d.pkg.TypesInfo.Uses[tid].(*types.Var); isVar && pv.Pkg() != nil && pv.Parent() == pv.Pkg().Scope() {
+									tbl := (&evaluator{p: c.P}).packageTable(pv)
+									if tbl.k == vList && len(tbl.list) > 0 {
+										all := true
+										for _, v := range tbl.list {
+											all = all && v.isStr() && v.str() != ""
+										}
+										guarded = guarded || all
+									}
+								}
+							}
+						}
+					case *ast.IfStmt:
+						if i+1 < len(chain) && chain[i+1] == ast.Node(s.Body) && isEmptyCmp(s.Cond, token.NEQ) {
+							guarded = true
+						}
+						// `if v, ok := table[k]; ok { return v, nil }` with an init-only package table whose
+						// values are all non-empty constants
+						if i+1 < len(chain) && chain[i+1] == ast.Node(s.Body) {
+							if as, isAs := s.Init.(*ast.AssignStmt); isAs && len(as.Lhs) == 2 && len(as.Rhs) == 1 && objOf(d.pkg, as.Lhs[0]) == o {
+								if ix, isIx := as.Rhs[0].(*ast.IndexExpr); isIx && objOf(d.pkg, s.Cond) == objOf(d.pkg, as.Lhs[1]) {
+									if tid, isT := ix.X.(*ast.Ident); isT {
+										if pv, isVar := d.pkg.TypesInfo.Uses[tid].(*types.Var); isVar && pv.Pkg() != nil && pv.Parent() == pv.Pkg().Scope() {
+											tbl := (&evaluator{p: c.P}).packageTable(pv)
+											if tbl.k == vMap && len(tbl.list) > 0 {
+												all := true
+												for _, v := range tbl.list {
+													all = all && v.isStr() && v.str() != ""
+												}
+												guarded = guarded || all
+											}
+										}
+									}
+								}
+							}
+						}
+					case *ast.BlockStmt:
+						if i+1 >= len(chain) {
+							continue
+						}
+						for _, st := range s.List {
+							if st == chain[i+1] {
+								break
+							}
+							if ifs, ok := st.(*ast.IfStmt); ok && ifs.Else == nil && terminates(ifs.Body) {
+								if be, ok := ifs.Cond.(*ast.BinaryExpr); ok && be.Op == token.EQL && isEmptyCmp(ifs.Cond, token.EQL) {
+									guarded = true
+								}
+							}
+						}
+					}
+				}
+			}
+			c.check(guarded, R, construct, pos, "the returned format was compared with the empty format on this path",
+				fmt.Sprintf("%s is returned with a nil error and nothing on the path rules out the empty format: input that matches no format is reported as a success with an empty format", exprText(c.P.Fset, e)))
+			return true
+		})
+	}
+	check("formats.(*Sniffer).SniffReader", 0)
+	c.floor(R, 5, "the returns of SniffReader")
+}
